@@ -21,5 +21,6 @@ func genAll() {
 	genCheckPast()
 	genHandler()
 	genNetRules()
+	genHTTPW()
 	genScripts()
 }
